@@ -11,6 +11,33 @@ from .ops import OPS, execute
 from .world import World
 
 
+def resync_ownership(w):
+    """Model parent pointers and module lists := what the live collections show. False if
+    the live structure holds objects the harness has no label for."""
+    from .world import FIELDS
+
+    m = w.m
+    with w.seams.observing():
+        for l, n in m.nodes.items():
+            if n.kind != "ir":
+                n.parent = None
+        for pl, pn in list(m.nodes.items()):
+            P = w.objs.get(pl)
+            if P is None or pn.kind not in FIELDS:
+                continue
+            for field in FIELDS[pn.kind]:
+                labels = []
+                for c in getattr(P, field):
+                    cl = w.lab.get(id(c))
+                    if cl is None or cl not in m.nodes:
+                        return False
+                    labels.append(cl)
+                    m.nodes[cl].parent = pl
+                if pn.kind == "ir":
+                    pn.a["modules"] = labels
+    return True
+
+
 class RunResult:
     def __init__(self):
         self.seed = self.run = None
@@ -66,7 +93,14 @@ def run_one(ctx, profile, seed, run, ops=None, cfg=None, keep_ops=True):
                 with ctx.seams.observing():
                     profile.after(w, op, out)
                 if w.deferred is not None:
-                    raise w.deferred
+                    # Scan-based checks go on after re-deriving the model's ownership from the
+                    # live structure: a defect that belongs to another property (e.g. a module
+                    # listed twice) may be the first step of a history that breaks this one.
+                    if getattr(profile, "resync_on_divergence", False) and resync_ownership(w):
+                        w.counters["probe:resynced_after_foreign_divergence"] += 1
+                        w.deferred = None
+                    else:
+                        raise w.deferred
                 res.steps += 1
                 step += 1
             with ctx.seams.observing():
